@@ -168,6 +168,10 @@ def crash_record(plan, code, err):
     vs = [v]
     if cls == "panic":
         vs.append(dict(v, property="C18"))
+    if cls == "data-race" and "lt_cred.go" in txt:
+        # a race inside the time-windowed credential handlers: the key they return is then not
+        # the key of (user, realm, password) - an authentic credential is refused, or worse
+        vs.append(dict(v, property="C17"))
     if cls in ("panic", "wedge") and plan.get("property") not in ("C09", "C18", None):
         # the run of that property's own plan did not complete: its own check fails too
         vs.append(dict(v, property=plan["property"]))
